@@ -36,6 +36,9 @@ def build(table, rep):
         return le.Licensing([Row(k, ex, tuple(al)) for k, al, ex in table])
     if rep == 'rows4':
         return le.Licensing([Row4(k, 'The ' + k, tuple(al), ex) for k, al, ex in table])
+    if rep == 'symbols-shared':      # entries that are alike are one and the same LicenseSymbol object
+        objs = {}
+        return le.Licensing([objs.setdefault((k, tuple(al), ex), le.LicenseSymbol(k, aliases=tuple(al), is_exception=ex)) for k, al, ex in table])
     if rep == 'gen-symbols':      # a table handed over as a one-shot iterable
         return le.Licensing(s for s in impl.table_objs(table))
     if rep == 'iter-objects':
@@ -73,7 +76,9 @@ class Prop(BaseProp):
             i = rng.randrange(len(table))
             k, al, ex = table[i]
             m = rng.random()
-            if m < 0.3:
+            if m < 0.1:
+                table.append([k, list(al), ex])        # the very same entry once more
+            elif m < 0.3:
                 table.append([gen.recase(rng, k) if rng.random() < 0.7 else k, [], False])
             elif m < 0.55 and al:
                 table.append(['zz' + str(i), [gen.variant(rng, rng.choice(al))], False])
@@ -102,7 +107,7 @@ class Prop(BaseProp):
         plain = all(not al and not ex for k, al, ex in table)
         lics = {}
         for oi, t in enumerate(orders):
-            for rep in ['symbols', 'objects', 'rows', 'rows4', 'gen-symbols', 'iter-objects'] + (['strings', 'map-strings'] if plain else []):
+            for rep in ['symbols', 'symbols-shared', 'objects', 'rows', 'rows4', 'gen-symbols', 'iter-objects'] + (['strings', 'map-strings'] if plain else []):
                 v, lic = verdict(t, rep)
                 if v.startswith('other'):
                     return Verdict('spec', case, 'constructor raised %s (order %d, %s)' % (v, oi, rep), tags=tags)
